@@ -5,12 +5,12 @@ CONSTANTS
   Writers = {1}
   Q = 2
   InitHead = 2
-  MaxR = 5
-  Froms = {0, 2}
+  MaxR = 4
+  Froms = {0}
   Backend = "bolt"
   Buf = 100
   Remap = FALSE
-  Faults = {"disc", "cancel"}
-  MaxFaults = 2
+  Faults = {"cancel"}
+  MaxFaults = 1
   HoldReg = TRUE
 CHECK_DEADLOCK FALSE
